@@ -447,7 +447,7 @@ class Verifier:
 def _only_names(before, after, names):
     e = sym.fresh_val("le")
     nm = Val.sval(sym.VL.hd(Val.targs(e)))
-    return sym.forall_pat([e], z3.Implies(z3.Select(after, e), z3.Or(z3.Select(before, e), *[nm == z3.StringVal(n) for n in names])), z3.Select(after, e))
+    return z3.ForAll([e], z3.Implies(z3.Select(after, e), z3.Or(z3.Select(before, e), *[nm == z3.StringVal(n) for n in names])))
 
 
 def _keep_axioms(st: State, scratch: State):
